@@ -39,6 +39,9 @@ type solveOpts struct {
 func (o *Obligation) script(seed int) string {
 	var b bytes.Buffer
 	for i := 0; i < o.Prefix; i++ {
+		if o.Cover && strings.Contains(o.Script[i], "(forall ") {
+			continue // covers are decided modulo the quantified facts (relaxation)
+		}
 		b.WriteString(o.Script[i])
 		b.WriteByte('\n')
 	}
@@ -48,7 +51,7 @@ func (o *Obligation) script(seed int) string {
 		b.WriteString("(assert (not " + o.Goal + "))\n")
 	}
 	b.WriteString("(check-sat)\n")
-	if len(o.Inputs) > 0 && !o.Cover {
+	if len(o.Inputs) > 0 && !o.Cover && seed >= 0 {
 		var ts []string
 		for _, m := range o.Inputs {
 			ts = append(ts, m.Term)
